@@ -56,24 +56,22 @@ func wipe(env *hx.Env, ctx sdk.Context, mod string) {
 	}
 }
 
+// prep applies the modules' prepare-for-zero-height steps the way an application does before a
+// restart export: all of them together (oracle's exported feed state is read from the service
+// module's request contexts, so preparing one module alone would be an artefact).
 func prep(env *hx.Env, ctx sdk.Context, mod string) bool {
-	switch mod {
-	case "htlc":
-		htlc.PrepForZeroHeightGenesis(ctx, env.HTLC)
-	case "oracle":
-		oracle.PrepForZeroHeightGenesis(ctx, env.Oracle)
-	case "random":
-		random.PrepForZeroHeightGenesis(ctx, env.Random)
-	case "service":
-		service.PrepForZeroHeightGenesis(ctx, env.Service)
-	default:
-		return false
-	}
+	htlc.PrepForZeroHeightGenesis(ctx, env.HTLC)
+	service.PrepForZeroHeightGenesis(ctx, env.Service)
+	oracle.PrepForZeroHeightGenesis(ctx, env.Oracle)
+	random.PrepForZeroHeightGenesis(ctx, env.Random)
 	return true
 }
 
 func roundtrip(env *hx.Env, ctx sdk.Context, rn hx.Runner, mod string, doPrep bool) string {
 	st, _ := rn.(hx.Stater)
+	if gs, ok := rn.(hx.GenesisStater); ok {
+		st = genesisView{gs}
+	}
 	if doPrep {
 		if p, info := hx.NoPanic(func() { prep(env, ctx, mod) }); p {
 			return "ok prep=panic:" + strings.ReplaceAll(info, " ", "_")
@@ -131,6 +129,10 @@ func roundtrip(env *hx.Env, ctx sdk.Context, rn hx.Runner, mod string, doPrep bo
 	}
 	return res
 }
+
+type genesisView struct{ g hx.GenesisStater }
+
+func (v genesisView) State(ctx sdk.Context) string { return v.g.GenesisState(ctx) }
 
 func trunc(s string) string {
 	if len(s) > 120 {
